@@ -111,7 +111,7 @@ func (vc *FnVC) instr(ins ssa.Instruction) {
 			s := vc.val(x.X)
 			vc.assert("index", vc.exprText(x), sAnd(sx("<=", "0", idx.S), sx("<", idx.S, sx("sl.len", s.S))))
 			key, _ := vc.memKey(t.Elem())
-			abs := vc.define("ix", SInt, sx("+", sx("sl.off", s.S), idx.S))
+			abs := vc.define("ix", SInt, sx("sl.ix", sx("sl.off", s.S), idx.S))
 			vc.addrs[x] = &Addr{kind: aMem, key: key, ref: sx("sl.base", s.S), idx: abs, rootT: t.Elem(), T: t.Elem()}
 		case *types.Pointer:
 			at := t.Elem().Underlying().(*types.Array)
@@ -141,8 +141,8 @@ func (vc *FnVC) instr(ins ssa.Instruction) {
 			vc.assert("index", vc.exprText(x), sAnd(sx("<=", "0", idx.S), sx("<", idx.S, fmt.Sprint(t.Len()))))
 			vc.setReg(x, sSelect(s.S, idx.S))
 		case *types.Basic: // string
-			vc.assert("index", vc.exprText(x), sAnd(sx("<=", "0", idx.S), sx("<", idx.S, sx("str.len", s.S))))
-			vc.setReg(x, sx("str.at", s.S, idx.S))
+			vc.assert("index", vc.exprText(x), sAnd(sx("<=", "0", idx.S), sx("<", idx.S, sx("gs.len", s.S))))
+			vc.setReg(x, sx("gs.at", s.S, idx.S))
 		default:
 			vc.fail("Index on %s", x.X.Type())
 		}
@@ -354,19 +354,19 @@ func (vc *FnVC) doBinOp(x *ssa.BinOp) {
 	case isString(t):
 		switch x.Op {
 		case token.ADD:
-			vc.setReg(x, sx("str.cat", a.S, b.S))
+			vc.setReg(x, sx("gs.cat", a.S, b.S))
 		case token.EQL:
 			vc.setReg(x, sEq(a.S, b.S))
 		case token.NEQ:
 			vc.setReg(x, sNot(sEq(a.S, b.S)))
 		case token.LSS:
-			vc.setReg(x, sx("str.lt", a.S, b.S))
+			vc.setReg(x, sx("gs.lt", a.S, b.S))
 		case token.GTR:
-			vc.setReg(x, sx("str.lt", b.S, a.S))
+			vc.setReg(x, sx("gs.lt", b.S, a.S))
 		case token.LEQ:
-			vc.setReg(x, sNot(sx("str.lt", b.S, a.S)))
+			vc.setReg(x, sNot(sx("gs.lt", b.S, a.S)))
 		case token.GEQ:
-			vc.setReg(x, sNot(sx("str.lt", a.S, b.S)))
+			vc.setReg(x, sNot(sx("gs.lt", a.S, b.S)))
 		default:
 			vc.fail("string binop %s", x.Op)
 		}
@@ -551,8 +551,8 @@ func (vc *FnVC) doConvert(x *ssa.Convert) {
 		vc.assume(sEq(sx("to_real", r.S), tr))
 		vc.assume(vc.typeFacts(r))
 	case isString(to) && isIntLike(from):
-		vc.sorts.declareFun("str.fromRune", "(Int) Str")
-		vc.setReg(x, sx("str.fromRune", v.S))
+		vc.sorts.declareFun("gs.fromRune", "(Int) Str")
+		vc.setReg(x, sx("gs.fromRune", v.S))
 	case isString(to):
 		// []byte / []rune -> string
 		st, ok := from.Underlying().(*types.Slice)
@@ -561,16 +561,16 @@ func (vc *FnVC) doConvert(x *ssa.Convert) {
 		}
 		_, es := vc.memKey(st.Elem())
 		key, _ := vc.memKey(st.Elem())
-		name := "str.fromBytes"
+		name := "gs.fromBytes"
 		if b, ok := st.Elem().Underlying().(*types.Basic); ok && b.Kind() == types.Int32 {
-			name = "str.fromRunes"
+			name = "gs.fromRunes"
 		}
 		vc.sorts.declareFun(name, "((Array Int "+es+") Int Int) Str")
 		r := vc.setReg(x, sx(name, sSelect(vc.cur(key), sx("sl.base", v.S)), sx("sl.off", v.S), sx("sl.len", v.S)))
-		if name == "str.fromBytes" {
-			vc.assume(sEq(sx("str.len", r.S), sx("sl.len", v.S)))
+		if name == "gs.fromBytes" {
+			vc.assume(sEq(sx("gs.len", r.S), sx("sl.len", v.S)))
 		} else {
-			vc.assume(sAnd(sx("<=", sx("sl.len", v.S), sx("str.len", r.S)), sx("<=", sx("str.len", r.S), sx("*", "4", sx("sl.len", v.S)))))
+			vc.assume(sAnd(sx("<=", sx("sl.len", v.S), sx("gs.len", r.S)), sx("<=", sx("gs.len", r.S), sx("*", "4", sx("sl.len", v.S)))))
 		}
 	case isString(from):
 		st, ok := to.Underlying().(*types.Slice)
@@ -586,15 +586,15 @@ func (vc *FnVC) doConvert(x *ssa.Convert) {
 		arr := vc.fresh("conv", "(Array Int "+es+")")
 		ln := vc.fresh("convlen", SInt)
 		if isRunes {
-			vc.sorts.declareFun("str.runeCount", "(Str) Int")
-			vc.sorts.declareFun("str.runeAtIdx", "(Str Int) Int")
-			vc.assume(sAnd(sEq(ln, sx("str.runeCount", v.S)), sx("<=", "0", ln), sx("<=", ln, sx("str.len", v.S)),
-				sImp(sx(">", sx("str.len", v.S), "0"), sx(">", ln, "0")),
-				sx("<=", sx("str.len", v.S), sx("*", "4", ln))))
-			vc.body = append(vc.body, fmt.Sprintf("(assert (forall ((i Int)) (! (and (= (select %s i) (str.runeAtIdx %s i)) (<= 0 (select %s i)) (<= (select %s i) 1114111)) :pattern ((select %s i)))))", arr, v.S, arr, arr, arr))
+			vc.sorts.declareFun("gs.runeCount", "(Str) Int")
+			vc.sorts.declareFun("gs.runeAtIdx", "(Str Int) Int")
+			vc.assume(sAnd(sEq(ln, sx("gs.runeCount", v.S)), sx("<=", "0", ln), sx("<=", ln, sx("gs.len", v.S)),
+				sImp(sx(">", sx("gs.len", v.S), "0"), sx(">", ln, "0")),
+				sx("<=", sx("gs.len", v.S), sx("*", "4", ln))))
+			vc.body = append(vc.body, fmt.Sprintf("(assert (forall ((i Int)) (! (and (= (select %s i) (gs.runeAtIdx %s i)) (<= 0 (select %s i)) (<= (select %s i) 1114111)) :pattern ((select %s i)))))", arr, v.S, arr, arr, arr))
 		} else {
-			vc.assume(sEq(ln, sx("str.len", v.S)))
-			vc.body = append(vc.body, fmt.Sprintf("(assert (forall ((i Int)) (! (= (select %s i) (str.at %s i)) :pattern ((select %s i)))))", arr, v.S, arr))
+			vc.assume(sEq(ln, sx("gs.len", v.S)))
+			vc.body = append(vc.body, fmt.Sprintf("(assert (forall ((i Int)) (! (= (select %s i) (gs.at %s i)) :pattern ((select %s i)))))", arr, v.S, arr))
 		}
 		vc.set(key, sStore(vc.cur(key), base, arr))
 		vc.setReg(x, sx("mk-slice", base, "0", ln, ln))
@@ -643,12 +643,12 @@ func (vc *FnVC) doSlice(x *ssa.Slice) {
 		if x.Low != nil {
 			lo = vc.val(x.Low).S
 		}
-		hi := sx("str.len", s.S)
+		hi := sx("gs.len", s.S)
 		if x.High != nil {
 			hi = vc.val(x.High).S
 		}
-		vc.assert("slice-bounds", text, sAnd(sx("<=", "0", lo), sx("<=", lo, hi), sx("<=", hi, sx("str.len", s.S))))
-		vc.setReg(x, sx("str.sub", s.S, lo, hi))
+		vc.assert("slice-bounds", text, sAnd(sx("<=", "0", lo), sx("<=", lo, hi), sx("<=", hi, sx("gs.len", s.S))))
+		vc.setReg(x, sx("gs.sub", s.S, lo, hi))
 	case *types.Pointer:
 		at := t.Elem().Underlying().(*types.Array)
 		a := vc.addrOf(x.X)
@@ -693,8 +693,8 @@ func (vc *FnVC) doLookup(x *ssa.Lookup) {
 	case *types.Basic:
 		s := vc.val(x.X)
 		idx := vc.val(x.Index)
-		vc.assert("index", vc.exprText(x), sAnd(sx("<=", "0", idx.S), sx("<", idx.S, sx("str.len", s.S))))
-		vc.setReg(x, sx("str.at", s.S, idx.S))
+		vc.assert("index", vc.exprText(x), sAnd(sx("<=", "0", idx.S), sx("<", idx.S, sx("gs.len", s.S))))
+		vc.setReg(x, sx("gs.at", s.S, idx.S))
 	default:
 		vc.fail("lookup on %s", x.X.Type())
 	}
@@ -775,12 +775,12 @@ func (vc *FnVC) doNext(x *ssa.Next) {
 	// string iteration: positions advance by the rune size (1..4)
 	s := it.m
 	pos := vc.cur(it.posKey)
-	vc.sorts.declareFun("str.runeAt", "(Str Int) Int")
-	vc.sorts.declareFun("str.runeSize", "(Str Int) Int")
-	okc := vc.define("nextok", SBool, sx("<", pos, sx("str.len", s.S)))
-	r := vc.define("nextr", SInt, sx("str.runeAt", s.S, pos))
-	sz := sx("str.runeSize", s.S, pos)
-	vc.assume(sImp(okc, sAnd(sx("<=", "1", sz), sx("<=", sz, "4"), sx("<=", sx("+", pos, sz), sx("str.len", s.S)), sx("<=", "0", r), sx("<=", r, "1114111"))))
+	vc.sorts.declareFun("gs.runeAt", "(Str Int) Int")
+	vc.sorts.declareFun("gs.runeSize", "(Str Int) Int")
+	okc := vc.define("nextok", SBool, sx("<", pos, sx("gs.len", s.S)))
+	r := vc.define("nextr", SInt, sx("gs.runeAt", s.S, pos))
+	sz := sx("gs.runeSize", s.S, pos)
+	vc.assume(sImp(okc, sAnd(sx("<=", "1", sz), sx("<=", sz, "4"), sx("<=", sx("+", pos, sz), sx("gs.len", s.S)), sx("<=", "0", r), sx("<=", r, "1114111"))))
 	vc.set(it.posKey, sIte(okc, sx("+", pos, sz), pos))
 	vc.tuples[x] = []Val{{okc, types.Typ[types.Bool], SBool}, {pos, types.Typ[types.Int], SInt}, {r, types.Typ[types.Rune], SInt}}
 }
